@@ -105,6 +105,9 @@ func cmdVerify(args []string) {
 			fmt.Printf("%-8s %-70s %s %.2fs %s %v\n", o.Status, o.Name, o.PosStr, o.Seconds, o.Solver, o.Outputs)
 			if o.Status != "proved" {
 				fmt.Printf("         clause: %s %s\n", o.Clause, o.Err)
+				if len(o.ModelValues) > 0 && *verbose {
+					fmt.Printf("         model: %v\n", o.ModelValues)
+				}
 			}
 		}
 	}
